@@ -48,7 +48,7 @@ def tlc_stream(module, cfg, outdir, tag, nbuckets, workers=None, timeout=3000, k
     other = []
     n = 0
     e = dict(os.environ)
-    e["JAVA_TOOL_OPTIONS"] = (e.get("JAVA_TOOL_OPTIONS", "") + " -Xmx6g -XX:+UseParallelGC").strip()
+    e["JAVA_TOOL_OPTIONS"] = (e.get("JAVA_TOOL_OPTIONS", "") + " -Xmx6g -Xss128m -XX:+UseParallelGC").strip()
     p = subprocess.Popen(cmd, cwd=vlib.SPEC, env=e, stdout=subprocess.PIPE, stderr=subprocess.STDOUT, text=True)
     try:
         for line in p.stdout:
